@@ -607,6 +607,13 @@ class C07(Prop):
             return 'queues do not drain: events stay queued (on a component that is not a root, or for ever): %r' % (
                 [x[4] for x in obs['snaps'][-1]],)
         if obs['drained'] == 1:
+            # every unregistration that was requested has completed by now: every current root has been ticked
+            # until all queues were empty, so nothing can complete it later
+            last = obs['snaps'][-1] if obs['snaps'] else obs['init']
+            for c in range(n):
+                if last[c][3]:
+                    return ('unregistration of %d was requested but never completes: %d is still attached to %d and '
+                            'pending although every root has been ticked until all queues were empty' % (c, c, last[c][0]))
             for e in loc:
                 if done.get(e, 0) != 1:
                     return 'probe event %d was fired but dispatched %d times (lost)' % (e, done.get(e, 0))
